@@ -1356,6 +1356,12 @@ class Interp:
                 return shp[args[0]]
             if not args:
                 return tuple(shp)
+        if attr == "size" and args and isinstance(args[0], int) and isinstance(recv, Op) and recv.op == "index" and isinstance(recv.args[0], Sym) and recv.args[0].name in self.shapes:
+            # x[..., a:b].size(-1) for a symbol of known shape and a concrete slice of the last axis
+            shp = self.shapes[recv.args[0].name]
+            idx = recv.args[1] if isinstance(recv.args[1], tuple) else (recv.args[1],)
+            if len(idx) >= 2 and idx[0] is Ellipsis and isinstance(idx[-1], slice) and args[0] in (-1, len(shp) - 1) and isinstance(shp[-1], int):
+                return len(range(*idx[-1].indices(shp[-1])))
         if attr.endswith("_") and not attr.startswith("__"):
             self.ev("inplace", how="method:" + attr, target=recv, args=args, node=node)
         if attr == "item":
